@@ -284,6 +284,13 @@ def b_dict(ip, args, kwargs, node):
     if args and isinstance(args[0], (VOpaque, VStar)) or (args and args[0].kind == "iter"):
         # dict(<opaque iterable>): an opaque mapping (pure, cannot raise for zip()/items() views)
         return VOpaque(ip.st.fresh("dict", Opaque))
+    if args and isinstance(args[0], VMap) and not kwargs:
+        # dict(<symbolic map>): a copy with the same entries
+        a = args[0]
+        ref = ip.st.new_ref()
+        ip.st.heap[(ref, "dom")] = ip.st.heap[(a.ref, "dom")]
+        ip.st.heap[(ref, "val")] = ip.st.heap[(a.ref, "val")]
+        return VMap(ref, a.key, a.val)
     if args:
         a = args[0]
         if isinstance(a, VDict):
@@ -672,6 +679,7 @@ def build_lib() -> dict:
                  ("frozenset", b_frozenset), ("set", b_frozenset), ("sum", b_sum), ("bytearray", b_bytearray)]:
         lib[n] = VBuiltin(n, f)
     lib["Dict"] = VBuiltin("dict", b_dict)
+    lib["issubclass"] = VBuiltin("issubclass", b_issubclass)
     lib["timedelta"] = VBuiltin("timedelta", ctor_timedelta)
     lib["datetime"] = VModule("datetime", {
         "now": VBuiltin("datetime.now", dt_now),
@@ -801,6 +809,17 @@ def s_at(ip, args, kwargs, node):
     """spec: at(s, i) - the i-th element of a sequence for 0 <= i < len(s), WITHOUT Python's negative-index wrap-around
     (quantified clauses guard the index themselves; the wrap-around ite inside a quantifier defeats the solvers)"""
     s, i = args
+    if isinstance(s, (VList, VTuple)):
+        items = list(ip.items_of(s))
+        it = z3.simplify(i.term)
+        if z3.is_int_value(it) and 0 <= it.as_long() < len(items):
+            return items[it.as_long()]
+        if not items:
+            return VOpaque(ip.st.fresh("no_element", Opaque))      # at([], j): no such element (the clause guards the index)
+        out = items[-1]
+        for k in range(len(items) - 2, -1, -1):
+            out = ip.ite(i.term == k, items[k], out)
+        return out
     x = ip.st.heap[(s.ref, "seq")][i.term]
     return wrap(s.elem, x) if s.elem[0] not in ("obj", "symobj") else VObj(s.elem[1], x)
 
@@ -877,7 +896,34 @@ def s_same_arr(ip, args, kwargs, node):
     return VBool(z3.And(ip.st.heap[(a.ref, "len")] == ip.st.heap[(b.ref, "len")], ip.st.heap[(a.ref, "arr")] == ip.st.heap[(b.ref, "arr")]))
 
 
-SPEC_LIB = {"same_arr": VBuiltin("same_arr", s_same_arr), "map_with_if": VBuiltin("map_with_if", s_map_with_if), "empty_map": VBuiltin("empty_map", s_empty_map), "seq_of": VBuiltin("seq_of", s_seq_of), "is_insert_partial": VBuiltin("is_insert_partial", s_is_insert_partial),
+def b_issubclass(ip, args, kwargs, node):
+    """issubclass(<opaque type object>, Class): an uninterpreted predicate of the type object"""
+    x, c = args
+    if isinstance(x, VOpaque) and isinstance(c, VClass):
+        return VBool(z3.Function("issubclass_" + c.name, Opaque, z3.BoolSort())(x.term))
+    raise Unsupported(f"issubclass({x!r}, {c!r})")
+
+
+def s_okeys(ip, args, kwargs, node):
+    """spec: the keys of a dict in insertion order, as a sequence (ordered symbolic map, or a concrete dict)"""
+    m = args[0]
+    ref = ip.st.new_ref()
+    if isinstance(m, VMap) and getattr(m, "ordered", False):
+        ip.st.heap[(ref, "seq")] = ip.st.heap[(m.ref, "keys")]
+        return VSeq(ref, m.key)
+    if isinstance(m, VDict):
+        items = list(ip.st.heap[(m.ref, "items")])
+        if not all(isinstance(k, str) for k in items):
+            raise Unsupported("okeys of a dict with non-string keys")
+        sq = z3.Empty(z3.SeqSort(z3.StringSort()))
+        for k in items:
+            sq = z3.Concat(sq, z3.Unit(z3.StringVal(k)))
+        ip.st.heap[(ref, "seq")] = sq
+        return VSeq(ref, ("str",))
+    raise Unsupported(f"okeys({m!r})")
+
+
+SPEC_LIB = {"okeys": VBuiltin("okeys", s_okeys), "same_arr": VBuiltin("same_arr", s_same_arr), "map_with_if": VBuiltin("map_with_if", s_map_with_if), "empty_map": VBuiltin("empty_map", s_empty_map), "seq_of": VBuiltin("seq_of", s_seq_of), "is_insert_partial": VBuiltin("is_insert_partial", s_is_insert_partial),
             "partial_arg": VBuiltin("partial_arg", s_partial_arg),
             "is_noop_callable": VBuiltin("is_noop_callable", s_is_noop_callable), "last_now": VBuiltin("last_now", s_last_now), "contains": VBuiltin("contains", s_contains), "nonempty": VBuiltin("nonempty", s_nonempty), "nonempty_map": VBuiltin("nonempty_map", s_nonempty), "without": VBuiltin("without", s_without), "with_": VBuiltin("with_", s_with),
             "appended": VBuiltin("appended", s_appended), "at": VBuiltin("at", s_at), "dt_in_range": VBuiltin("dt_in_range", s_dt_in_range), "td_in_range": VBuiltin("td_in_range", s_td_in_range),
